@@ -3,6 +3,7 @@ package h
 import (
 	"fmt"
 	"go/types"
+	"os"
 	"strings"
 
 	"moqsym/exec"
@@ -10,7 +11,11 @@ import (
 )
 
 // FileObj stands for *os.File values (os.Stdout, os.Stderr).
-type FileObj struct{ Name string }
+type FileObj struct {
+	Name   string
+	Path   exec.Value // for files opened by the code under analysis
+	Opened bool
+}
 
 func (f *FileObj) Load(ex *exec.Exec) exec.Value     { return noLoad(ex, "os.File") }
 func (f *FileObj) Store(ex *exec.Exec, v exec.Value) { noLoad(ex, "os.File") }
@@ -119,6 +124,45 @@ func RunEnvStubs(repo *Repo) map[string]exec.Stub {
 		ex.Emit("WriteFile", "fail-after-truncate", c.Args[0], c.Args[1])
 		return ex.NewError(ex.C.StrC("write failed: no space left on device"), "write")
 	}
+	// explicit open/write/close instead of os.WriteFile: the same three outcomes, plus the open flags,
+	// which decide what survives of a file that was at the path before
+	openFile := func(ex *exec.Exec, name exec.Value, flags int64) exec.Value {
+		var defects []string
+		if flags&int64(os.O_WRONLY|os.O_RDWR) == 0 {
+			defects = append(defects, "read-only")
+		}
+		if flags&int64(os.O_CREATE) == 0 {
+			defects = append(defects, "without O_CREATE")
+		}
+		if flags&int64(os.O_TRUNC) == 0 {
+			defects = append(defects, "without O_TRUNC")
+		}
+		if flags&int64(os.O_APPEND) != 0 {
+			defects = append(defects, "with O_APPEND")
+		}
+		if flags&int64(os.O_EXCL) != 0 {
+			defects = append(defects, "with O_EXCL")
+		}
+		if chooseVar(ex, "outcome_open", 2) == 1 {
+			ex.Emit("WriteFile", "fail-before-open", name, nil)
+			return exec.Tuple{exec.NilV{}, ex.NewError(ex.C.StrC("open failed"), "open")}
+		}
+		ex.Emit("Open", strings.Join(defects, ", "), name)
+		return exec.Tuple{&FileObj{Name: "opened", Path: name, Opened: true}, exec.Iface{}}
+	}
+	st["os.OpenFile"] = func(ex *exec.Exec, c *exec.CallInfo) exec.Value {
+		fl, ok := c.Args[1].(*smt.Term)
+		if !ok || !fl.IsConst {
+			ex.Inconclusive("os.OpenFile with non-constant flags")
+			return exec.Tuple{exec.NilV{}, ex.NewError(ex.C.StrC("open failed"), "open")}
+		}
+		return openFile(ex, c.Args[0], fl.I)
+	}
+	st["os.Create"] = func(ex *exec.Exec, c *exec.CallInfo) exec.Value {
+		return openFile(ex, c.Args[0], int64(os.O_RDWR|os.O_CREATE|os.O_TRUNC))
+	}
+	st["(*os.File).Close"] = func(ex *exec.Exec, c *exec.CallInfo) exec.Value { return exec.Iface{} }
+	st["(*os.File).Sync"] = st["(*os.File).Close"]
 	// ---- main.main ----
 	flagVar := func(sort string) exec.Stub {
 		return func(ex *exec.Exec, c *exec.CallInfo) exec.Value {
@@ -184,6 +228,14 @@ func RunEnvStubs(repo *Repo) map[string]exec.Stub {
 		name := "?"
 		if f, ok := c.Args[0].(*FileObj); ok {
 			name = f.Name
+			if f.Opened {
+				if chooseVar(ex, "outcome_filewrite", 2) == 1 {
+					ex.Emit("WriteFile", "fail-after-truncate", f.Path, c.Args[1])
+					return exec.Tuple{ex.C.IntC(0), ex.NewError(ex.C.StrC("write failed: no space left on device"), "write")}
+				}
+				ex.Emit("WriteFile", "ok", f.Path, c.Args[1])
+				return exec.Tuple{ex.C.IntC(0), exec.Iface{}}
+			}
 		}
 		ex.Emit("StdWrite", name, c.Args[1])
 		if fault(ex, "stdout_write") {
@@ -339,6 +391,14 @@ func checkRunTrace(ic *IC, ex *exec.Exec, repo *Repo, f *runFlags, failed bool, 
 			ex.Fail("C18/C15: run() calls " + e.Note + ", a file-system mutation outside {os.Remove(out), os.MkdirAll(dir(out)), os.WriteFile(out)}")
 		}
 	}
+	for _, e := range ex.Events {
+		if e.Kind == "Open" {
+			ex.Oblige(c.Eq(e.Args[0].(*smt.Term), f.out), "C18/C17: the file opened for writing is exactly the -out path")
+			if e.Note != "" {
+				ex.Fail("C17: the -out file is opened " + e.Note + ": a successful run does not leave exactly the complete output whatever was at the path before")
+			}
+		}
+	}
 	for _, e := range removes {
 		ex.Oblige(c.Eq(e.Args[0].(*smt.Term), f.out), "C18: os.Remove targets exactly the -out path")
 		ex.Oblige(c.And(f.remove, hasOut), "C18/C15: os.Remove only with -rm and -out")
@@ -468,7 +528,7 @@ func HRun() *Harness {
 		Funcs: []string{"main.run"},
 		Assumptions: []string{
 			"moq.New and (*Mocker).Mock are replaced by their contracts: New loads or fails; Mock either fails having written nothing or writes the complete output once (this is what H.mock establishes)",
-			"os.Remove: succeeds / fails with not-exist / fails otherwise; os.MkdirAll: succeeds or fails; os.WriteFile: succeeds, fails before opening, or fails after truncating (its documented partial-write behaviour)",
+			"os.Remove: succeeds / fails with not-exist / fails otherwise; os.MkdirAll: succeeds or fails; os.WriteFile: succeeds, fails before opening, or fails after truncating (its documented partial-write behaviour); os.OpenFile/os.Create + (*os.File).Write are the same three outcomes with the open flags checked (O_CREATE|O_TRUNC, writable, neither O_APPEND nor O_EXCL); Close and Sync succeed",
 			"filepath.Dir is an uninterpreted function; packages.Load does not write into the source tree (the property's own proviso)",
 		},
 		Bounds:  []string{"0–3 command-line arguments (arity matters only through len < 2)", "all strings unbounded"},
